@@ -6,7 +6,7 @@
         -> (ok <OutcomesFound> <DstarOneWorld> <OutcomeNotCondition> <popsCoverCheck> <qGoodCheck>)
            the hypotheses of `ctfTR_no_internal_error_partial` that are decidable predicates on the input
      (ctftr uncond <target graph> <domains> <event>)
-        -> (ok <in the class of ctfTRu_sound_free_partial: true|false> <answer of ctfTRu>)
+        -> (ok <in the class of ctfTRu_sound_partial: true|false> <answer of ctfTRu>)
      (ctftr line2 <target graph> <outcomes> <conditions>)
         -> (ok <derived event D* in ctf-factor form> (<vertices of D*>…)) | (err …)
 
